@@ -524,7 +524,7 @@ def rule_current_directory_tests(prog, fixture=False):
     r = RuleResult("R-C02-5", "cat decides 'is in the current directory' identically where it sorts and where it "
                    "prints: every comparison with the current directory is between the entry's directory "
                    "character itself and ctx.current_directory itself (no case folding on either side)",
-                   floor=0 if fixture else 3)
+                   floor=0 if fixture else 2)
     for fn in prog.functions.values():
         if not fn.relfile().endswith("cmd_cat.cc") and not fixture:
             continue
